@@ -2,6 +2,7 @@
    generated stub of the one and the generated skeleton of the other, connected directly. */
 #include <stdio.h>
 #include <string.h>
+#include <stdlib.h>
 #include <stdint.h>
 #include "cobj.h"
 Object c_impl_new(void); void c_caller(Object target);
@@ -40,6 +41,34 @@ static int32_t spy_invoke(ObjectCxt h, ObjectOp op, ObjectArg *a, ObjectCounts k
     for (size_t i = ObjectCounts_indexBO(k); i < ObjectCounts_indexBO(k) + ObjectCounts_numBO(k); i++) if (!spy_is_object_slot(&a[i])) spy_scan("out", op, (int)i, a[i].b.ptr, a[i].b.size);
   return r;
 }
+/* refusal by the skeletons of all three backends (C04): every method op is invoked directly on an
+   implementation object with counts words that cannot be the method's; the slots are 60 zeroed
+   arguments, so a skeleton that looks at them anyway does not fault - it is caught by its status
+   or by the implementation's own "impl" line */
+static void refuse_phase(Side *sides, int n, int nmeth, const char *noparam) {
+  static ObjectArg zero[64];
+  for (int j = 0; j < n; j++) {
+    Object t = sides[j].mk();
+    printf("refusing %s\n", sides[j].name);
+    for (int op = 0; op < nmeth; op++) {
+      ObjectCounts ks[8]; int nk = 0;
+      ks[nk++] = ObjectCounts_pack(15, 15, 15, 15);
+      ks[nk++] = ObjectCounts_pack(14, 13, 12, 11);
+      if (noparam[op] == '1') { ks[nk++] = ObjectCounts_pack(1, 0, 0, 0); ks[nk++] = ObjectCounts_pack(0, 1, 0, 0);
+                                ks[nk++] = ObjectCounts_pack(0, 0, 1, 0); ks[nk++] = ObjectCounts_pack(0, 0, 0, 1); ks[nk++] = ObjectCounts_pack(1, 1, 0, 0); }
+      for (int q = 0; q < nk; q++) {
+        memset(zero, 0, sizeof zero);
+        sc_set(0, 0);
+        printf("refuse op=%d k=0x%x\n", op, (unsigned)ks[q]);
+        int32_t r = Object_invoke(t, (ObjectOp)op, zero, ks[q]);
+        printf("refused op=%d k=0x%x status=%d\n", op, (unsigned)ks[q], (int)r);
+      }
+    }
+    /* the object is still usable: a well-formed call is served (the callers do that below) */
+    Object_release(t);
+  }
+}
+
 int main(int argc, char **argv) {
   Side sides[] = { {"c", c_impl_new, c_caller},
 #ifndef NO_CPP
@@ -51,6 +80,7 @@ int main(int argc, char **argv) {
   };
   int n = sizeof sides / sizeof sides[0];
   setvbuf(stdout, NULL, _IOFBF, 1 << 16);
+  if (argc > 3 && !strcmp(argv[1], "--refuse")) { refuse_phase(sides, n, atoi(argv[2]), argv[3]); return 0; }
   for (int i = 0; i < n; i++) for (int j = 0; j < n; j++) {
     if (argc > 2 && (strcmp(argv[1], sides[i].name) || strcmp(argv[2], sides[j].name))) continue;
     printf("pairing %s %s\n", sides[i].name, sides[j].name);
